@@ -317,6 +317,7 @@ class Ctx:
         self.self_type = None
         self.mutself = False
         self.result_type = False
+        self.pubparams = frozenset()
 
     def copy(self):
         c = Ctx()
@@ -449,6 +450,14 @@ class Translator:
                 return pa + pb, '(decide (%s %s %s))' % (l, {'<': '<', '<=': '≤', '>': '>', '>=': '≥'}[op], r), 'bool'
             if op in ('+', '*') and tl in NUM and tr in NUM:
                 rt_ = tr if tl == 'int' else tl
+                if rt_ in ('usize', 'int') and any(x[0] == 'path' and len(x[1]) == 1 and x[1][0] in c.pubparams
+                                                   for x in (ints.strip(a), ints.strip(b))):
+                    # an operand is a `usize` PARAMETER OF A PUBLIC FUNCTION: a caller may pass any value, so "64-bit arithmetic
+                    # on offsets and counters does not overflow" is not available (F22): the overflow is a panic outcome (the
+                    # profile the harness builds with: overflow checks on), as an underflowing `-` is everywhere
+                    t = self.fresh()
+                    return (pa + pb + [('opt', '(if %s %s %s < %d then some (%s %s %s) else none)' % (l, op, r, ints.modulus('usize'), l, op, r),
+                                        self.site(c, 'overflow'), t)], t, 'usize')
                 if rt_ in ('usize', 'u32', 'int'):       # (the flags are `u32`: as before, no overflow)
                     return pa + pb, '(%s %s %s)' % (l, op, r), 'usize' if rt_ == 'int' else ('usize' if rt_ == 'u32' else rt_)
                 return pa + pb, ints.arith(op, l, r, rt_), rt_
@@ -826,6 +835,9 @@ class Translator:
             return cont(c, i2)
         if kind == 'let':
             _, name, mut, e, _ = s
+            anno = None
+            if e[0] == 'typed' and e[1][0] in ('if', 'iflet', 'match') and ints.is_int(e[2]):
+                anno, e = e[2], e[1]            # `let x: usize = match … { … };`: every branch value is checked against the annotation
             if e[0] in ('if', 'iflet', 'match'):
                 def kv(c_inner, i2, tl):
                     if tl is None:
@@ -834,7 +846,7 @@ class Translator:
                         return self.cps(tl, c_inner, i2, kv)
                     if tl[0] == 'panic':
                         return [i2 + '.panic "%s"' % self.site(c, 'unreachable')]
-                    p, v, t = self.ex(tl, c_inner)
+                    p, v, t = self.ex(('typed', tl, anno, line), c_inner) if anno else self.ex(tl, c_inner)
                     self.need_lres(c, p, line)
                     c3 = self.bind(c, name, t, line, mut, shadow=ints.shadow_ok(self, s) and name != 'self')
                     out, i3 = self.emit_pre(p, i2)
@@ -1247,6 +1259,8 @@ class Driver(Translator):
         if f['slf']:
             c.types['self'] = f['slf']
             lparams.append('(self : %s)' % lt(f['slf']))
+        if f['sig'].startswith('pub fn'):
+            c.pubparams = frozenset(n for n, t in f['params'] if t == 'usize')
         for n, t in f['params']:
             c.types[n] = t
             if n in self.mut_params:
